@@ -152,10 +152,15 @@ fn proto_brief(m: &v5::ProtocolMessage) -> (String, Option<u16>) {
     }
 }
 
-pub async fn proto_handler(w: Rc<World>, conn: usize, msg: v5::ProtocolMessage) -> Result<v5::ProtocolMessageAck, AppErr> {
+pub async fn proto_handler(w: Rc<World>, conn: usize, msg: v5::ProtocolMessage, sink: Option<v5::MqttSink>) -> Result<v5::ProtocolMessageAck, AppErr> {
     let (brief, pid) = proto_brief(&msg);
+    let sends = brief.contains("hs/");
     let (gid, imm) = w.gate_enter(conn, GateKind::Proto, GateDesc::Proto { brief, pid });
     let _guard = GateGuard { w: w.clone(), id: gid };
+    if let (Some(sink), v5::ProtocolMessage::Subscribe(_), true) = (&sink, &msg, sends) {
+        let r = sink.publish(ByteString::from(format!("h/{gid}"))).send_at_least_once(Bytes::from_static(b"hs")).await;
+        w.ev(Ev::Note { what: format!("handler send of gate {gid}: {}", if r.is_ok() { "acked" } else { "failed" }) });
+    }
     let outcome = match imm {
         Some(o) => o,
         None => w.gate_wait(gid).await,
@@ -332,11 +337,12 @@ macro_rules! v5_parts {
         }
     });
 
-    let w3 = w.clone();
+    let (w3, p3) = (w.clone(), plan.clone());
     let proto = fn_factory_with_config(move |ses: v5::Session<St>| {
         let (w, conn) = (w3.clone(), ses.conn);
+        let sink = if p3.cfg.handler_sends { Some(ses.sink().clone()) } else { None };
         async move {
-            Ok::<_, AppErr>(fn_service(move |msg: v5::ProtocolMessage| proto_handler(w.clone(), conn, msg)))
+            Ok::<_, AppErr>(fn_service(move |msg: v5::ProtocolMessage| proto_handler(w.clone(), conn, msg, sink.clone())))
         }
     });
 
